@@ -748,6 +748,19 @@ pub fn scale_doc(kind: usize, n: usize, r: &mut Rng) -> Vec<u8> {
 pub fn scale_docs(shard: u32, nshards: u32, seed: u64, max_size: usize) -> Vec<(usize, usize, Vec<u8>)> {
     let mut out = Vec::new();
     let mut idx = 0u32;
+    // every size around 128 (stack buffers and caches of that size; delimiters of 1 to 10 bytes shift
+    // where the boundary is hit)
+    if max_size >= 128 {
+        for kind in 0..SCALE_KINDS {
+            for n in 108..=136usize {
+                if idx % nshards == shard {
+                    let mut r = Rng::new(seed ^ ((kind as u64) << 32) ^ n as u64);
+                    out.push((kind, n, scale_doc(kind, n, &mut r)));
+                }
+                idx += 1;
+            }
+        }
+    }
     for kind in 0..SCALE_KINDS {
         for s in SCALE_SIZES {
             if *s > max_size {
